@@ -99,7 +99,13 @@ LexGood == { <<"Integer", "5">>, <<"Integer", "-5">>, <<"Integer", "+5">>, <<"In
 LexCases == {[group |-> "lex", ty |-> p[1], facet |-> "none", text |-> p[2], valid |-> FALSE] : p \in LexBad}
             \cup {[group |-> "lex", ty |-> p[1], facet |-> "none", text |-> p[2], valid |-> TRUE] : p \in LexGood}
 
-Cases == NumCases \cup BigCases \cup StrCases \cup EnumCases \cup OccCases \cup NilCases \cup DateCases \cup LexCases
+\* -------------------------------------------- arrays of objects, element by element
+\* n objects, each with a mandatory member v; element `missing` (0 = none) lacks it.  HttpRpc
+\* spells the elements a[i].v with contiguous or sparse indexes (where "10" sorts before "2")
+ObjArrCases == {[group |-> "objarr", ty |-> "Integer", n |-> n, idx |-> ix, missing |-> m, valid |-> m = 0] :
+                  n \in {2, 3, 11}, ix \in {"contig", "sparse"}, m \in 0..3}
+
+Cases == ObjArrCases \cup NumCases \cup BigCases \cup StrCases \cup EnumCases \cup OccCases \cup NilCases \cup DateCases \cup LexCases
 
 \* ---- laws of the table (anti-vacuity): every facet is effective - some probe is rejected by it
 \* alone - and admits something
